@@ -32,6 +32,7 @@ structure Consumers where
   fepChunk    : Bytes                 -- GlobalIndexToLittleEndianBytes (32 bytes LE)
   wire        : Bytes                 -- FixedBytes32 on the gRPC wire (32 bytes BE)
   prover      : Bytes                 -- FixedBytes32 in the aggchain prover request (32 bytes BE)
+  optInput    : Bytes                 -- the optimistic-mode signed commitment's chunk prefix (32 bytes LE of the claim's own value)
   deriving Repr, DecidableEq
 
 /-- what the code computes for a claim whose on-chain global index is `x` -/
@@ -41,7 +42,8 @@ def consumers (x : Nat) : Option Consumers :=
   | some (m, r, l) =>
     let g := generate m r l
     some { certField := (m, r, l), hashInput := bigToLE32 g, fepChunk := bigToLE32 g,
-           wire := bigToHash g, prover := bigToHash g }
+           wire := bigToHash g, prover := bigToHash g,
+           optInput := bigToLE32 x }     -- optimistichash uses `claim.GlobalIndex` as stored, without decoding it
 
 /-- canonical on-chain values: what the bridge contract can emit
     (`globalIndex = mainnetFlag·2^64 + rollupIndex·2^32 + leafIndex`, rollupIndex = 0 when mainnet) -/
